@@ -166,7 +166,7 @@ theorem reduce_offset (t s c : Nat) :
     rw [Nat.mul_assoc, pow_split (by omega)]
   · simp [h]
 
-theorem extract_aux (p : Bytes) (n szx st sz : Nat) (h : st < p.length) :
+theorem extract_aux (p : Bytes) (n szx st sz : Nat) (h : st < p.length ∨ (st = 0 ∧ p.length = 0)) :
     (if st ≥ p.length ∧ st > 0 then (none : Option (BlockOpt × Bytes))
      else
       let stop := if st + sz < p.length then st + sz else p.length
@@ -175,6 +175,11 @@ theorem extract_aux (p : Bytes) (n szx st sz : Nat) (h : st < p.length) :
           (p.drop st).take sz) := by
   have h1 : ¬ (st ≥ p.length ∧ st > 0) := by omega
   simp only [h1, ↓reduceIte]
+  rcases h with h | ⟨h0, hl⟩
+  case inr =>
+    have hp : p = [] := List.eq_nil_of_length_eq_zero hl
+    subst hp
+    simp
   by_cases h2 : st + sz < p.length
   · simp only [h2, ↓reduceIte, decide_true]
     rw [List.drop_take]
@@ -187,20 +192,24 @@ theorem extract_aux (p : Bytes) (n szx st sz : Nat) (h : st < p.length) :
 
 /-- `_extract_block` inside the body: the block option and `payload[start:start+size]`, the start
 counted in units, the size that of a block (BERT: all the KiB the remote takes) -/
-theorem extractBlock_eq {p : Bytes} {n szx mp : Nat} (h7 : szx ≤ 7) (h : n * unit szx < p.length) :
+theorem extractBlock_eq {p : Bytes} {n szx mp : Nat} (h7 : szx ≤ 7)
+    (h : n * unit szx < p.length ∨ (n = 0 ∧ p.length = 0)) :
     extractBlock p n szx mp =
       some ({ num := n, more := decide (n * unit szx + blk mp szx < p.length), szx := szx },
             (p.drop (n * unit szx)).take (blk mp szx)) := by
   unfold extractBlock
-  by_cases h : szx = 7
-  · subst h
+  by_cases hs : szx = 7
+  · subst hs
     simp only [↓reduceIte, blk_seven]
     rw [unit_seven] at *
-    exact extract_aux p n 7 (n * 1024) _ (by assumption)
+    exact extract_aux p n 7 (n * 1024) _ (by omega)
   · have h6 : szx ≤ 6 := by omega
-    simp only [h, ↓reduceIte, blk_le6 h6]
+    simp only [hs, ↓reduceIte, blk_le6 h6]
     rw [unit_le6 h6] at *
-    exact extract_aux p n szx (n * 2 ^ (szx + 4)) (2 ^ (szx + 4)) (by assumption)
+    refine extract_aux p n szx (n * 2 ^ (szx + 4)) (2 ^ (szx + 4)) ?_
+    rcases h with h | ⟨h0, hl⟩
+    · exact Or.inl h
+    · exact Or.inr ⟨by rw [h0, Nat.zero_mul], hl⟩
 
 /-- closed form of the size reduction with the BERT step (the fixed code) -/
 theorem reduceB_szx {t s : Nat} (c : Nat) (h7 : s ≤ 7) : (reduceB t s c).1 = min t s := by
